@@ -33,6 +33,7 @@ Definition sout_eqb (a b : sout) : bool :=
   | SNewConn n od rs v rtt e, SNewConn n' od' rs' v' rtt' e' =>
       (n =? n') && cid_eqb od od' && opt_cid_eq rs rs' && Bool.eqb v v' && (rtt =? rtt') && (e =? e')
   | SDrained x, SDrained y => sends_eqb x y
+  | SRemoved x, SRemoved y => x =? y
   | _, _ => false
   end.
 
